@@ -121,13 +121,16 @@ def pages_spanning(packets, serial, grans, segs_per_page, seq0=0):
     return pages
 
 
-def synth_link(name, serial, bs0=64, bs1=128, npk=40, ch=1, rate=8000, ppp=4, pad=0, span=0):
+def synth_link(name, serial, bs0=64, bs1=128, npk=40, ch=1, rate=8000, ppp=4, pad=0, span=0, floortype=1, restype=1, fill=(7, 3), modes3=False):
     """A link written bit by bit by the specification-level synthesiser (block sizes the encoder never uses, e.g. 64-sample short blocks)."""
     import vspec, vsynth
-    s = vsynth.base_setup(channels=ch, bs0=bs0, bs1=bs1, rate=rate)
+    s = vsynth.base_setup(channels=ch, bs0=bs0, bs1=bs1, rate=rate, floortype=floortype, restype=restype, coupling=[(0, 1)] if ch == 2 else [])
     modes = [((i * 7) // 3) % 2 for i in range(npk)]
+    if modes3:
+        s.modes = s.modes + [vspec.Mode(1, 0)]        # a third mode (long) reached by a number that differs from its block flag
+        modes = [(2 if (m and i % 3 == 0) else m) for i, m in enumerate(modes)]
     fl = vsynth.flags_for(s, modes)
-    f = vsynth.Filler(fixed={'f1.nonzero': 1})
+    f = vsynth.Filler(fixed={'f1.nonzero': 1, 'f0.amp': lambda c, d: 1 + (c if isinstance(c, int) else 0) % 4}, a=fill[0], b=fill[1])
     pk = [vsynth.make_packet(s, m, f, pv, nx) for m, (pv, nx) in zip(modes, fl)]
     if pad:
         # trailing zero bytes are ignored by the decoder; they make packets long enough to straddle pages
